@@ -115,12 +115,20 @@ def _mk_loaders(kind: str, cap: int, auto_reload: bool, ns_key: bool, root: Path
 
 
 def _src(content: int) -> str:
-    return f"{content}|{{{{ g }}}}"
+    # content | the per-load template global | the Environment's own global
+    return f"{content}|{{{{ g }}}}|{{{{ e }}}}"
 
 
-def _parse(text: str) -> tuple[int, int]:
-    c, g = text.split("|")
+def _parse(text: str) -> tuple:
+    c, g, e = text.split("|")
+    if e != "E":
+        # the Environment's own globals must reach every template however it was loaded
+        raise EnvGlobalsLost(text)
     return int(c), int(g[1:]) if g else 0
+
+
+class EnvGlobalsLost(Exception):
+    pass
 
 
 def run_history(kind: str, cap: int, auto_reload: bool, ns_key: bool, ops: list[tuple]) -> dict[str, Any]:
@@ -133,8 +141,9 @@ def run_history(kind: str, cap: int, auto_reload: bool, ns_key: bool, ops: list[
     loop = asyncio.new_event_loop()
     try:
         cached, twin, stores = _mk_loaders(kind, cap, auto_reload, ns_key, root)
-        env_c = Environment(loader=cached)
-        env_u = Environment(loader=twin)
+        env_c = Environment(loader=cached, globals={"e": "E"})
+        env_u = Environment(loader=twin, globals={"e": "E"})
+        wrappers: dict[tuple, Any] = {}
         ver = 1
         steps = []
         for op in ops:
@@ -176,7 +185,12 @@ def run_history(kind: str, cap: int, auto_reload: bool, ns_key: bool, ops: list[
                         if via:
                             # loaded from inside a render: the loader is called with the render context
                             tag = via if isinstance(via, str) else "include"
-                            wrapper = env.from_string("{% " + tag + " '" + name + "' %}")
+                            # the wrapping template is parsed once per (environment, tag, name) and
+                            # rendered again and again: nothing may be remembered on its nodes
+                            wk = (id(env), tag, name)
+                            if wk not in wrappers:
+                                wrappers[wk] = env.from_string("{% " + tag + " '" + name + "' %}")
+                            wrapper = wrappers[wk]
                             if is_async:
                                 text = loop.run_until_complete(wrapper.render_async(**kw))
                             else:
@@ -206,7 +220,10 @@ def run_history(kind: str, cap: int, auto_reload: bool, ns_key: bool, ops: list[
             snap = []
             for k in list(cached.cache):
                 t = cached.cache._cache[k]
-                snap.append((k,) + _parse(t.render()))
+                try:
+                    snap.append((k,) + _parse(t.render()))
+                except EnvGlobalsLost:
+                    snap.append((k, -1, -1))       # never equal to the model's snapshot
             steps.append({"c": obs_c, "u": obs_u, "snap": snap, "len": len(cached.cache)})
         return {"steps": steps}
     finally:
